@@ -24,6 +24,7 @@ pub struct C07 {
     n_gen: u64,
     n_comp: u64,
     n_shape: u64,
+    n_samples: u64,
 }
 
 pub struct Truth<'a> {
@@ -46,6 +47,7 @@ impl C07 {
             n_gen: scaled(tier.pick(40_000, 1_000_000), scale),
             n_comp: scaled(tier.pick(8_000, 200_000), scale),
             n_shape: scaled(tier.pick(160, 3_200), scale),
+            n_samples: tier.pick(16, 3 * streams::repo_sample_count()),
         }
     }
 
@@ -421,7 +423,7 @@ fn directed_headers(k: u64, r: &mut Rng, ctx: &mut Ctx) {
 
 impl Monitor for C07 {
     fn ncases(&self) -> u64 {
-        self.n_alpha + self.n_pad + self.n_dir + self.n_hdr + self.n_gen + self.n_comp + self.n_shape
+        self.n_alpha + self.n_pad + self.n_dir + self.n_hdr + self.n_gen + self.n_comp + self.n_shape + self.n_samples
     }
 
     fn run_case(&mut self, k: u64, ctx: &mut Ctx) {
@@ -572,6 +574,20 @@ impl Monitor for C07 {
             return;
         }
         k -= self.n_comp;
+        if k >= self.n_shape {
+            let idx = k - self.n_shape;
+            let mut r = Rng::derive(self.seed, 0x0707, idx, 0);
+            let pick = if self.tier == Tier::Quick { r.below(1000) } else { idx };
+            match streams::repo_sample(pick) {
+                Some((name, b)) => {
+                    Self::judge(&b, None, &format!("repo sample: {}", name), false, ctx, false);
+                    let (how, m) = streams::mutate(&mut r, &b, None);
+                    Self::judge(&m, None, &format!("{} <- repo sample: {}", how, name), false, ctx, false);
+                }
+                None => ctx.count("repo_samples_missing"),
+            }
+            return;
+        }
         let mut r = Rng::derive(self.seed, 0x0705, k, 0);
         let (name, d, p) = special::shape(k, &mut r);
         match crate::comp::zlib_inflate_raw(&d, p.len() + 1024) {
